@@ -11,9 +11,9 @@ from . import prog_engine as pe
 from .c09 import finish
 
 KINDS = {
-    'C01': ['flat', 'flat', 'multi', 'nested', 'tworoots', 'payload'],
-    'C02': ['flat', 'multi', 'nested', 'nested', 'unsized', 'split', 'nestedx', 'tworoots', 'payload'],
-    'C04': ['overlap', 'overlap', 'flat', 'nested', 'overlap', 'nestedx'],
+    'C01': ['flat', 'flat', 'multi', 'nested', 'tworoots', 'payload', 'targs:nested_arg', 'targs:generic'],
+    'C02': ['flat', 'multi', 'nested', 'nested', 'unsized', 'split', 'nestedx', 'tworoots', 'payload', 'arity', 'targs:nested_arg'],
+    'C04': ['overlap', 'overlap', 'flat', 'nested', 'overlap', 'nestedx', 'targs:nested_arg', 'arity'],
 }
 PREFIX = {'C01': ['C01_'], 'C02': ['C02_'], 'C04': ['C04_']}
 
@@ -144,10 +144,14 @@ def run_prop(prop, tier, seed, replay=None, make_cases=None):
         stats['programs'] += istats['programs']
         nontrivial |= inon
         violations += [v for v in iviol if 'expected items' in v['oracle'] or 'does not compile' in v['oracle']]
-        # the generated helper impls = the user's blocks plus the row (the assumption of Dispatch.v)
-        ncmp, gviol = pe.check_genimpls([c.invocation() for c in cases] + [c17.invocation(c) for c in icases])
-        stats['helper_impls_compared'] = ncmp
-        violations += gviol
+        icase_invs = [c17.invocation(c) for c in icases]
+    else:
+        icase_invs = []
+    # the generated helper impls = the user's blocks plus the row (the assumption of Dispatch.v
+    # behind the C01/C02/C04 theorems), compared with the model Gen.gen_helper_impls
+    ncmp, gviol = pe.check_genimpls([c.invocation() for c in cases] + icase_invs)
+    stats['helper_impls_compared'] = ncmp
+    violations += gviol
     if stats['spec_checked'] and stats['oracle_inconclusive'] > max(2, 0.02 * stats['spec_checked']):
         raise cm.HarnessError('the Coq model of trait resolution (RustSem.applicable) disagrees with rustc on %d of %d cases'
                               % (stats['oracle_inconclusive'], stats['spec_checked']))
